@@ -497,6 +497,47 @@ def r8(ctx, rule="C11.R8"):
     ctx.floor(rule, n, rule + ".methods")
 
 
+
+def r9(ctx):
+    rule = "C11.R9"
+    ctx.rule(rule, "T6 one position, two coordinates: in bit_string_copy_bulked the destination byte index (`p / 8`) and the bit offset "
+                   "inside that byte (`p % 8`) are taken from the same position value p (after the alignment head that is the advanced "
+                   "position) - an index from the position before the head with an offset from the position after it writes the body "
+                   "one byte early whenever the head crosses a byte boundary")
+    P = ctx.program()
+    b = one(ctx, rule, "unaligned::slice::bit_string_copy_bulked")
+    if b is None:
+        return
+    pn = {nm: l for l, nm in b.param_names().items()}
+    dl = pn.get("dst_bit_position")
+    if dl is None:
+        ctx.fail(rule, "anchor-lost:dst_bit_position", "bit_string_copy_bulked has no parameter dst_bit_position", "%s:%d" % (b.file, b.line))
+        return
+    tag = "$%d" % dl
+    divs, rems = {}, {}
+    O = X.Origins(b, P)
+    for bb, j, st in b.all_statements():
+        rv = st.get("rv") or {}
+        if st["k"] != "assign" or rv.get("k") != "bin" or X.norm_op(rv["op"]) not in ("Div", "Rem"):
+            continue
+        r_ = F.strip_casts(O.operand(rv["r"], bb, j))
+        if not (r_[0] == "const" and r_[1] == 8):
+            continue
+        l_ = F.rd(R.positional(O.operand(rv["l"], bb, j)))
+        if tag not in l_:
+            continue
+        (divs if X.norm_op(rv["op"]) == "Div" else rems).setdefault(l_, []).append(span_loc(st["sp"]))
+    detail = {"function": b.path, "byte_index_of": sorted(divs), "bit_offset_of": sorted(rems)}
+    if not divs or not rems:
+        ctx.fail(rule, "anchor-lost:coordinates", "destination `/ 8` (%d) or `%% 8` (%d) not found" % (len(divs), len(rems)), "%s:%d" % (b.file, b.line), detail)
+    elif set(divs) != set(rems):
+        odd = sorted(set(divs) ^ set(rems))[0]
+        ctx.fail(rule, "bit_string_copy_bulked#dst-coordinates", "the destination byte index is computed from %s, the bit offset from %s: the two "
+                                                                 "coordinates describe different positions" % (sorted(divs), sorted(rems)),
+                 (divs.get(odd) or rems.get(odd))[0], detail)
+    else:
+        ctx.ok(rule, "bit_string_copy_bulked#dst-coordinates", detail)
+
 def run(ctx):
     r1(ctx)
     r2(ctx)
@@ -506,3 +547,4 @@ def run(ctx):
     r6(ctx)
     r7(ctx)
     r8(ctx)
+    r9(ctx)
